@@ -61,8 +61,9 @@ def main():
         env = dict(os.environ, XANDIKOS_TREE=scratch, PYTHONDONTWRITEBYTECODE="1")
         meta = {"id": sid, "breaks_property": old.get("breaks_property", props[0]),
                 "source": "independent sub-agent given only the property text and a scratch worktree", "ran": []}
-        if old.get("needs_to_manifest"):
-            meta["needs_to_manifest"] = old["needs_to_manifest"]
+        for key in ("needs_to_manifest", "first_pass_caught_by", "note"):
+            if old.get(key) is not None:
+                meta[key] = old[key]
         d0 = sh([PY, os.path.join(out, "demo.py")], env=env, timeout=600)
         meta["demo_on_unchanged_tree_exit"] = d0.returncode
         a = sh("git -C %s apply %s" % (scratch, os.path.join(out, "patch.diff")))
